@@ -15,7 +15,7 @@ import (
 func c01GenGrammar(rt *rapid.T) vpState {
 	code, k, jt, z := vpGenProgram(rt, false, 12)
 	pages := vpGenPages(rt)
-	st := vpState{Blob: vpAssemble(code, k, jt, z), Pages: pages, Regs: vpGenRegs(rt, pages), Gas: vpGenGas(rt), Host: vpGenHost(rt)}
+	st := vpState{Blob: vpAssembleGen(rt, code, k, jt, z), Pages: pages, Regs: vpGenRegs(rt, pages), Gas: vpGenGas(rt), Host: vpGenHost(rt)}
 	switch rapid.IntRange(0, 9).Draw(rt, "pck") {
 	case 0:
 		st.PC = uint32(rapid.IntRange(0, len(code)+3).Draw(rt, "pcany"))
@@ -59,6 +59,62 @@ func c01GenRaw(rt *rapid.T) vpState {
 	pages := vpGenPages(rt)
 	return vpState{Blob: vpAssemble(code, k, jt, rapid.SampledFrom([]int{1, 2, 4}).Draw(rt, "z")), Pages: pages,
 		Regs: vpGenRegs(rt, pages), Gas: vpGenGas(rt), Host: vpGenHost(rt)}
+}
+
+// c01GenDjump: small programs built around ONE dynamic jump (jump_ind / load_imm_jump_ind) whose
+// address is aimed at a jump-table entry: every entry width 1..16, entries that are block starts,
+// instruction starts inside a block, operand octets or past the code, and (widths above 8) entries
+// with a non-zero octet above the 64-bit part. The register holds 2*(index+1) - immediate most of
+// the time, so the table is really consulted.
+func c01GenDjump(rt *rapid.T) vpState {
+	useLoadImm := rapid.Bool().Draw(rt, "load_imm_jump_ind")
+	ra := rapid.IntRange(0, 12).Draw(rt, "ra")
+	rb := ra
+	if useLoadImm && rapid.IntRange(0, 2).Draw(rt, "same_reg") != 0 {
+		rb = rapid.IntRange(0, 12).Draw(rt, "rb")
+	}
+	imm := byte(rapid.SampledFrom([]int{0, 0, 2, 4, 0x7F, 0x80, 0xFE}).Draw(rt, "imm"))
+	var code []byte
+	var k []bool
+	emit := func(b ...byte) {
+		for i, x := range b {
+			code = append(code, x)
+			k = append(k, i == 0)
+		}
+	}
+	if useLoadImm {
+		// load_imm_jump_ind rA, rB, lX=1: vX (1 octet), vY (1 octet)
+		emit(180, byte(ra)|byte(rb)<<4, 1, 9, imm)
+	} else {
+		emit(50, byte(ra), imm)
+	}
+	emit(0) // trap: the next instruction starts a block
+	b1 := len(code)
+	emit(51, 2, 9) // load_imm r2, 9
+	mid := len(code)
+	emit(51, 3, 7) // load_imm r3, 7  (an instruction start inside the block)
+	emit(0)
+	b2 := len(code)
+	emit(51, 4, 5)
+	emit(0)
+	z := rapid.SampledFrom([]int{1, 1, 2, 3, 4, 8, 8, 9, 9, 10, 12, 16}).Draw(rt, "z")
+	nj := rapid.IntRange(1, 4).Draw(rt, "nj")
+	var jt []uint64
+	for i := 0; i < nj; i++ {
+		jt = append(jt, uint64(rapid.SampledFrom([]int{b1, b1, b2, 0, mid, b1 + 1, len(code), len(code) + 1}).Draw(rt, "entry")))
+	}
+	blob := vpAssembleGen(rt, code, k, jt, z)
+	pages := vpGenPages(rt)
+	st := vpState{Blob: blob, Pages: pages, Regs: vpGenRegs(rt, pages), Gas: vpGenGas(rt), Host: vpGenHost(rt)}
+	if rapid.IntRange(0, 5).Draw(rt, "aimed") != 0 {
+		idx := rapid.IntRange(0, nj).Draw(rt, "idx") // nj: one past the table
+		base := uint64(2*(idx+1)) - uint64(int64(int8(imm)))
+		if rapid.IntRange(0, 7).Draw(rt, "upper_half_dirty") == 0 {
+			base += uint64(rapid.IntRange(1, 3).Draw(rt, "hi")) << 32 // the address is taken modulo 2^32
+		}
+		st.Regs[rb] = base
+	}
+	return st
 }
 
 // c01Single is one enumerated single-instruction program.
@@ -318,6 +374,7 @@ func TestVerif_C01(t *testing.T) {
 	}
 	kit.Run(s, "grammar_programs", kit.N{Quick: 30000, Thorough: 3000000}, c01GenGrammar, c01Check)
 	kit.Run(s, "raw_programs", kit.N{Quick: 10000, Thorough: 1000000}, c01GenRaw, c01Check)
+	kit.Run(s, "dynamic_jump_programs", kit.N{Quick: 10000, Thorough: 500000}, c01GenDjump, c01Check)
 }
 
 // FuzzVerif_C01 drives the grammar-program differential with Go's coverage-guided fuzzer.
